@@ -10,6 +10,7 @@ pub mod c05;
 pub mod c06;
 pub mod c07;
 pub mod c07p;
+pub mod c12m;
 pub mod c09;
 pub mod c10;
 pub mod c11;
@@ -45,6 +46,7 @@ pub fn all() -> Vec<Scenario> {
         Scenario { name: "c06", plan: c06::plan, run: c06::run },
         Scenario { name: "c07", plan: c07::plan, run: c07::run },
         Scenario { name: "c07p", plan: c07p::plan, run: c07p::run },
+        Scenario { name: "c12m", plan: c12m::plan, run: c12m::run },
         Scenario { name: "c09", plan: c09::plan, run: c09::run },
         Scenario { name: "c10", plan: c10::plan, run: c10::run },
         Scenario { name: "c11", plan: c11::plan, run: c11::run },
